@@ -154,6 +154,15 @@ def c09_check(S, exp, out_ids, result):
             rds = [s_ for s_, k, key, tid, x in H.events if k == "rd" and key == S.store_name[a]]
             if w_end is None or not rds or min(rds) < w_end:
                 return f"alias source n{a} (store of rebuilt n{tgt}) was read (seq {min(rds) if rds else None}) before the write of n{tgt} ended (seq {w_end})", 0, 0
+    # a guarded source (its only predecessor is a stored node) that is read in a run in which that node is rebuilt is read after the write
+    for g in S.reg:
+        if rp.role[g] == "gsrc" and g in exp.reads:
+            for p_ in S.preds[g]:
+                if p_ in exp.writes:
+                    w_end = last.get(("wr_end", S.store_name[p_]))
+                    r_start = first.get(("rd", S.store_name[g]))
+                    if w_end is None or r_start is None or r_start < w_end:
+                        return f"source n{g}, which depends on rebuilt stored n{p_}, was read (seq {r_start}) before that value was written (seq {w_end})", 0, 0
     # identity: what consumers and the output receive is the object returned by the store's read in this run
     for m, (args, kwitems) in H.args_seen.items():
         n = ir.nodes[m]
@@ -225,7 +234,7 @@ def _run_history(desc, props=("C03", "C05", "C09")):
     fresh = None
     problems = []
     log = []
-    psrcs = [i for i in S.reg if rp.role[i] == "psrc"]
+    psrcs = [i for i in S.reg if rp.role[i] in ("psrc", "gsrc")]  # refreshed from outside
     deletable = [i for i in S.reg if rp.role[i] in ("stored", "dsrc", "slit")]
     last_ok = False
     for si in range(steps):
